@@ -1280,6 +1280,10 @@ func (st *Runtime) evalPipeCallExpression(baseExpr reflect.Value, args CallArgs,
 
 func (st *Runtime) evalCommandExpression(node *CommandNode) (reflect.Value, bool) {
 	term := st.evalPrimaryExpressionGroup(node.BaseExpr)
+	if !term.IsValid() && node.Exprs != nil {
+		// f(...) or f: ... where f has no value at all (nil, an absent map entry): like "x | f", an error
+		node.BaseExpr.errorf("command %q is called but has no value", node.BaseExpr)
+	}
 	if term.IsValid() && node.Exprs != nil {
 		if term.Kind() == reflect.Func {
 			if term.Type() == safeWriterType {
